@@ -14,6 +14,7 @@
 //!   member <start> <size>                    (fat only, informational) file range of the member
 //!   arch <string|none>                       what `BinaryImage::arch()` returns for the loaded binary (observed)
 //!   truearch <x86|x86_64|arm|arm64|none>     architecture per the object's own header (harness's parse; JITDUMP: the generator's)
+//!   fpmode full                              the `fp` / `ref` fingerprints are of the whole instruction text on every architecture
 //!   pre <start> <size> <cont>                requests run before `req` on the same SymbolManager (output discarded)
 //!   req <start> <size> <cont>                the request
 //!   kind jit / jent <rel> <codeoff> <codelen> / flen <n>     (JITDUMP only) the index as the writer laid it out
@@ -655,11 +656,31 @@ where
     }
 }
 
-fn probe_arch(arch: &str, bytes: &[u8]) -> (char, Option<String>) {
+/// `pc` = relative address of the instruction (start of the slice + offset): needed for the text of x86-64
+/// relative branches, which the API shows with their absolute target (specification: JMP / Jcc / LOOPx / JRCXZ /
+/// CALL with an immediate operand are shown as `<mnemonic> 0x<target>`, target = pc + length + displacement)
+fn probe_arch(arch: &str, bytes: &[u8], pc: i64) -> (char, Option<String>) {
     match arch {
         "x86" => probe::<yaxpeax_x86::protected_mode::Arch>(&yaxpeax_x86::protected_mode::InstDecoder::default(), bytes, &|i| (i.to_string(), i.len().to_const() as u64)),
         "x86_64" => probe::<yaxpeax_x86::amd64::Arch>(&yaxpeax_x86::amd64::InstDecoder::default(), bytes, &|i| {
-            (i.display_with(yaxpeax_x86::amd64::DisplayStyle::Intel).to_string(), i.len().to_const() as u64)
+            use yaxpeax_x86::amd64::{Opcode as O, Operand};
+            let len = i.len().to_const() as u64;
+            let mut text = i.display_with(yaxpeax_x86::amd64::DisplayStyle::Intel).to_string();
+            let branch = matches!(
+                i.opcode(),
+                O::JMP | O::JRCXZ | O::LOOP | O::LOOPZ | O::LOOPNZ | O::JO | O::JNO | O::JB | O::JNB | O::JZ | O::JNZ | O::JNA | O::JA | O::JS | O::JNS | O::JP | O::JNP | O::JL | O::JGE | O::JLE | O::JG | O::CALL
+            );
+            if branch {
+                let disp = match i.operand(0) {
+                    Operand::ImmediateI8 { imm } => Some(imm as i64),
+                    Operand::ImmediateI32 { imm } => Some(imm as i64),
+                    _ => None,
+                };
+                if let Some(d) = disp {
+                    text = format!("{} 0x{:x}", i.opcode(), pc + len as i64 + d);
+                }
+            }
+            (text, len)
         }),
         "arm64" => probe::<yaxpeax_arm::armv8::a64::ARMv8>(&yaxpeax_arm::armv8::a64::InstDecoder::default(), bytes, &|i| (i.to_string(), i.len().to_const() as u64)),
         "arm" => probe::<yaxpeax_arm::armv7::ARMv7>(&yaxpeax_arm::armv7::InstDecoder::default_thumb(), bytes, &|i| (i.to_string(), i.len().to_const() as u64)),
@@ -676,22 +697,24 @@ fn fnv32(s: &str) -> u32 {
     h
 }
 
-/// Fingerprint of an instruction's text. For x86-64 only the mnemonic is used, because the API rewrites the
-/// operand of relative branches into an absolute address (mod.rs:252-274).
-fn fingerprint(arch: &str, text: &str) -> String {
-    let t = if arch == "x86_64" { text.split_whitespace().next().unwrap_or("") } else { text };
+/// Fingerprint of an instruction's text (the whole text; the reference side renders x86-64 relative branches with
+/// their absolute target like the API does, mod.rs:252-274, see `probe_arch`).
+/// (Cases recorded before the improvement round have no `fpmode full` line: their x86-64 reference fingerprints are
+/// of the mnemonic only, `legacy` reproduces that.)
+fn fingerprint(arch: &str, text: &str, legacy: bool) -> String {
+    let t = if arch == "x86_64" && legacy { text.split_whitespace().next().unwrap_or("") } else { text };
     format!("{:06x}", fnv32(t) & 0xff_ffff)
 }
 
-fn tables(arch: Option<&str>, slice: &[u8]) -> (String, String) {
+fn tables(arch: Option<&str>, slice: &[u8], rel: u32) -> (String, String) {
     let Some(arch) = arch else { return ("-".into(), "-".into()) };
     let mut oracle = String::with_capacity(slice.len() + 1);
     let mut refs: Vec<String> = Vec::with_capacity(slice.len() + 1);
     for p in 0..=slice.len() {
-        let (c, text) = probe_arch(arch, &slice[p..]);
+        let (c, text) = probe_arch(arch, &slice[p..], rel as i64 + p as i64);
         oracle.push(c);
         refs.push(match text {
-            Some(t) => fingerprint(arch, &t),
+            Some(t) => fingerprint(arch, &t, false),
             None => "-".to_string(),
         });
     }
@@ -794,6 +817,7 @@ fn build_case_pre(bin: &Bin, note: &str, pre: &[(u32, u32, bool)], start: u32, s
     }
     ops.push(format!("arch {}", bin.code_arch.as_deref().unwrap_or("none")));
     ops.push(format!("truearch {}", bin.arch.unwrap_or("none")));
+    ops.push("fpmode full".into());
     for (a, z, c) in pre {
         ops.push(format!("pre {a} {z} {}", *c as u8));
     }
@@ -823,7 +847,7 @@ fn build_case_pre(bin: &Bin, note: &str, pre: &[(u32, u32, bool)], start: u32, s
             let w = &w[..];
             ops.push(format!("slice {rel} {n}"));
             ops.push(format!("win {fo} {}", hex(w)));
-            let (o, r) = tables(bin.arch, w);
+            let (o, r) = tables(bin.arch, w, rel);
             ops.push(format!("oracle {o}"));
             ops.push(format!("ref {r}"));
         }
@@ -1012,7 +1036,7 @@ fn invalid_patterns(arch: &str) -> &'static Vec<Vec<u8>> {
                 let mut cand: Vec<u8> = (0..unit.max(if a.starts_with("x86") { 1 + rng.below(3) as usize } else { unit })).map(|_| rng.next_u64() as u8).collect();
                 let keep = cand.len();
                 cand.extend_from_slice(&[0u8; 16]);
-                if probe_arch(a, &cand).0 == 'i' {
+                if probe_arch(a, &cand, 0).0 == 'i' {
                     cand.truncate(keep);
                     if !v.contains(&cand) {
                         v.push(cand);
@@ -1373,12 +1397,14 @@ impl Prop for C20 {
         };
         let mut req: Option<(u32, u32, bool)> = None;
         let mut pre: Vec<(u32, u32, bool)> = Vec::new();
+        let mut full_fp = false;
         for l in ops {
             let w: Vec<&str> = l.split_whitespace().collect();
             match w.as_slice() {
                 ["req", a, s, c] => req = Some((a.parse().unwrap_or(0), s.parse().unwrap_or(0), *c == "1")),
                 ["pre", a, s, c] => pre.push((a.parse().unwrap_or(0), s.parse().unwrap_or(0), *c == "1")),
                 ["arch", a] => stats.bump(&format!("code_arch_{a}")),
+                ["fpmode", "full"] => full_fp = true,
                 ["note", k, z] => {
                     stats.bump(&format!("start_{k}"));
                     stats.bump(&format!("size_{z}"));
@@ -1459,7 +1485,7 @@ impl Prop for C20 {
                 bad.push(if h.is_empty() { "-".to_string() } else { h });
             } else {
                 offs.push(off.to_string());
-                fps.push(fingerprint(arch, t));
+                fps.push(fingerprint(arch, t, !full_fp));
             }
         }
         stats.bump("outcome_resp");
